@@ -156,6 +156,25 @@ package route
 //@   ghostset after Wait: hkWaited = true
 //@   top-ensures hkWaited
 
+// C12 (static routes): StaticFile / StaticFS register their file handler through the group's own GET and HEAD, so the
+// chain is the group's middleware followed by the handler like for any other route.
+//@ func RouterGroup.StaticFile(group, relativePath, filepath) r
+//@   props C12
+//@   abstract
+//@   noinline
+//@   panics
+//@   assert before RouterGroup.GET: arg0 == group && len(arg2) == 1
+//@   assert before RouterGroup.HEAD: arg0 == group && len(arg2) == 1
+//@   forbid addRoute
+//@ func RouterGroup.StaticFS(group, relativePath, fs) r
+//@   props C12
+//@   abstract
+//@   noinline
+//@   panics
+//@   assert before RouterGroup.GET: arg0 == group && len(arg2) == 1
+//@   assert before RouterGroup.HEAD: arg0 == group && len(arg2) == 1
+//@   forbid addRoute
+
 // ---- C19 (is tracing on at all): initTrace switches tracing off only when no tracer is registered; the trace level
 // filters which stage events are recorded, it never removes the start/finish pair of a request.
 //@ interface tracer.Controller.Append(this, col)
